@@ -5,7 +5,7 @@ open Node
 theorem structK_withKids (n : Node) (ks : List Node) : structK (n.withKids ks) = structK n := by
   cases n <;> rfl
 
-theorem Forall2_Sim_length {Xs ks : List Node} (h : Forall2 Sim Xs ks) : Xs.length = ks.length := Forall2.length_eq h
+theorem Forall2_Sim_length {Xs ks : List Node} (h : Forall2 ESim Xs ks) : Xs.length = ks.length := Forall2.length_eq h
 
 theorem notArg_withKids (n : Node) (Xs : List Node) (h : structK n = true) : ∀ s e, n.withKids Xs ≠ .arg s e := by
   intro s e
@@ -13,7 +13,7 @@ theorem notArg_withKids (n : Node) (Xs : List Node) (h : structK n = true) : ∀
 
 /-- a node the visitor only descends into: its result erases to the node itself -/
 theorem gen_VC (n : Node) (ks' : List Node) (lo hi : Nat) (hs : srcOk n = true) (hk : structK n = true)
-    (hkl : KL lo hi ks' n.kids) : VC lo hi (n.withKids ks') n := by
+    (hkl : KL lo hi ks' n.kids) : EVC lo hi (n.withKids ks') n := by
   have hl := hkl.length
   refine ⟨?_, Or.inl (span_withKids n ks' hk), ?_, ?_, ?_⟩
   · intro m hb σ
@@ -43,7 +43,7 @@ theorem gen_VC (n : Node) (ks' : List Node) (lo hi : Nat) (hs : srcOk n = true) 
   · cases n <;> simp only [structK, Bool.false_eq_true] at hk <;> rfl
   · cases n <;> simp only [structK, Bool.false_eq_true] at hk <;> simp [withKids, Node.isIdent]
 
-theorem arg_VC {lo hi : Nat} {s : Option Span} {e' e : Node} (h : VC lo hi e' e) : VC lo hi (.arg s e') (.arg s e) := by
+theorem arg_VC {lo hi : Nat} {s : Option Span} {e' e : Node} (h : EVC lo hi e' e) : EVC lo hi (.arg s e') (.arg s e) := by
   refine ⟨?_, ?_, ?_, rfl, by simp [Node.isIdent]⟩
   · intro m hb σ
     obtain ⟨e'', rfl, he⟩ := hb.arg_inv
@@ -71,8 +71,8 @@ theorem loose_of_spanRel {e' e : Node} {sp : Span} (h : spanRel e' e) (hs : srcN
       rw [← this] at hs
       simp [dummy_isDummy] at hs
 
-theorem paren_VC {lo hi : Nat} {e' e : Node} {sp : Span} (hs : srcOk (.paren e sp) = true) (h : VC lo hi e' e) :
-    VC lo hi (.paren e' sp) (.paren e sp) := by
+theorem paren_VC {lo hi : Nat} {e' e : Node} {sp : Span} (hs : srcOk (.paren e sp) = true) (h : EVC lo hi e' e) :
+    EVC lo hi (.paren e' sp) (.paren e sp) := by
   have hloose := loose_of_spanRel h.2.1 (srcOk_self hs)
   refine ⟨?_, Or.inl rfl, ?_, rfl, by simp [Node.isIdent]⟩
   · intro m hb σ
@@ -84,7 +84,7 @@ theorem paren_VC {lo hi : Nat} {e' e : Node} {sp : Span} (hs : srcOk (.paren e s
     intro _
     exact ⟨e, rfl, hloose, h.1, h.2.2.1⟩
 
-theorem seq_VC {lo hi : Nat} {es' es : List Node} {sp : Span} (h : KL lo hi es' es) : VC lo hi (.seq es' sp) (.seq es sp) := by
+theorem seq_VC {lo hi : Nat} {es' es : List Node} {sp : Span} (h : KL lo hi es' es) : EVC lo hi (.seq es' sp) (.seq es sp) := by
   have hhead : headIsTempAssign es' = false := by
     cases es' with
     | nil => rfl
@@ -107,7 +107,7 @@ theorem seq_VC {lo hi : Nat} {es' es : List Node} {sp : Span} (h : KL lo hi es' 
   exact ⟨by simp only [strip, Forall2_Sim_strip sX], Or.inl rfl, by simp [noSp, unSpread]⟩
 
 theorem cond_VC {lo hi : Nat} {t' c' a' t c a : Node} {sp : Span} (hs : srcOk (.cond t c a sp) = true)
-    (h : KL lo hi [t', c', a'] [t, c, a]) : VC lo hi (.cond t' c' a' sp) (.cond t c a sp) := by
+    (h : KL lo hi [t', c', a'] [t, c, a]) : EVC lo hi (.cond t' c' a' sp) (.cond t c a sp) := by
   have hsp : sp.isDummy = false := by
     have := srcOk_self hs; simpa [srcNode] using this
   refine ⟨?_, Or.inl rfl, by simp [Deep], rfl, by simp [Node.isIdent]⟩
@@ -126,7 +126,7 @@ theorem cond_VC {lo hi : Nat} {t' c' a' t c a : Node} {sp : Span} (hs : srcOk (.
     simp only [stripL, List.cons.injEq, and_true] at hst
     exact ⟨by simp only [strip, hst.1, hst.2.1, hst.2.2], Or.inl rfl, by simp [noSp, unSpread]⟩
 
-theorem tempTarget_of_VC {lo hi : Nat} {l' l : Node} (h : VC lo hi l' l) (hs : srcOk l = true) : tempTarget? l' = none := by
+theorem tempTarget_of_VC {lo hi : Nat} {l' l : Node} (h : EVC lo hi l' l) (hs : srcOk l = true) : tempTarget? l' = none := by
   cases l' with
   | ident nm isp =>
     have := h.2.2.2.2 rfl
@@ -135,7 +135,7 @@ theorem tempTarget_of_VC {lo hi : Nat} {l' l : Node} (h : VC lo hi l' l) (hs : s
   | _ => rfl
 
 theorem assign_VC {lo hi : Nat} {op : String} {l' r' l r : Node} {sp : Span} (hs : srcOk (.assign op l r sp) = true)
-    (hl : VC lo hi l' l) (hr : VC lo hi r' r) : VC lo hi (.assign op l' r' sp) (.assign op l r sp) := by
+    (hl : EVC lo hi l' l) (hr : EVC lo hi r' r) : EVC lo hi (.assign op l' r' sp) (.assign op l r sp) := by
   have hnt := tempTarget_of_VC hl (srcOk_kids hs l (by simp [kids]))
   have h0 := srcOk_self hs
   simp only [srcNode, Bool.and_eq_true, Bool.not_eq_true'] at h0
@@ -179,7 +179,7 @@ theorem assign_VC {lo hi : Nat} {op : String} {l' r' l r : Node} {sp : Span} (hs
       simp [tempTarget?] at hnt
     · rfl
 
-theorem calleeKind_of_VC {lo hi : Nat} {c' c : Node} (h : VC lo hi c' c) (hs : srcOk c = true) : calleeKind c' = .plain := by
+theorem calleeKind_of_VC {lo hi : Nat} {c' c : Node} (h : EVC lo hi c' c) (hs : srcOk c = true) : calleeKind c' = .plain := by
   cases c' with
   | member o' p' msp =>
     cases o' with
@@ -209,9 +209,9 @@ theorem calleeKind_BRg {c c'' : Node} (h : BRg c c'') : calleeKind c'' = calleeK
     obtain ⟨o'', p'', rfl, ho, hp⟩ := h.member_inv
     cases o with
     | ident nm isp =>
-      rw [BRg_noBlk (noBlk_ident _ _) ho]
+      rw [BRg_noBlk (noBlk_identE _ _) ho]
       cases p with
-      | pname q qsp => rw [BRg_noBlk (noBlk_pname _ _) hp]
+      | pname q qsp => rw [BRg_noBlk (noBlk_pnameE _ _) hp]
       | block ss bsp => rcases hp.block_inv with rfl | ⟨ss', rfl, _⟩ <;> cases nm <;> rfl
       | _ =>
         obtain ⟨ks', rfl, _⟩ := hp.inv rfl
@@ -226,7 +226,7 @@ theorem calleeKind_BRg {c c'' : Node} (h : BRg c c'') : calleeKind c'' = calleeK
     rfl
 
 theorem call_VC {lo hi : Nat} {c' c : Node} {as' as : List Node} {sp : Span} (hs : srcOk (.call c as sp) = true)
-    (hc : VC lo hi c' c) (ha : KL lo hi as' as) : VC lo hi (.call c' as' sp) (.call c as sp) := by
+    (hc : EVC lo hi c' c) (ha : KL lo hi as' as) : EVC lo hi (.call c' as' sp) (.call c as sp) := by
   have hck := calleeKind_of_VC hc (srcOk_kids hs c (by simp [kids]))
   refine ⟨?_, Or.inl rfl, by simp [Deep], rfl, by simp [Node.isIdent]⟩
   intro m hb σ
@@ -245,7 +245,7 @@ def genK : Node → Bool
   | n => structK n
 
 theorem genAll_VC (n : Node) (hs : srcOk n = true) (hg : genK n = true) (lo hi : Nat) (ks' : List Node)
-    (hkl : KL lo hi ks' n.kids) : VC lo hi (n.withKids ks') n := by
+    (hkl : KL lo hi ks' n.kids) : EVC lo hi (n.withKids ks') n := by
   have hl := hkl.length
   cases n with
   | arg sA e =>
